@@ -219,6 +219,11 @@ func (nt *Net) finish(r *RPC, err error, how string) {
 	c.mu.Unlock()
 	if alive {
 		e := Ev{"id": r.ID, "kind": r.Kind, "from": r.From, "to": r.To}
+		if how == "reply" && r.Kind != "rv" {
+			c.mu.Lock()
+			c.leaseAt[r.From] = time.Now()
+			c.mu.Unlock()
+		}
 		if how == "reply" {
 			nt.respEv(r, e)
 			c.rec.Emit("reply", e)
